@@ -41,6 +41,8 @@ def classify(res):
         return "parameter that does not expect grad", "argument"
     if "grad_fn" in " ".join(res.trace.decisions[-1:]):
         return "tensor without grad_fn (leaf discovery)", "argument"
+    if any(("." + m_ + ".") in fn for m_ in _p.INTERNAL_CHECK_MODULES):
+        return "internal consistency check of a typed dictionary", "internal"  # (wherever in that module the raise statement sits: a helper, or the constructor itself)
     if last in ("__init__",) and "_transform" in fn:
         return "transform construction check (key typing)", "argument"
     if "_transform" in fn:
@@ -147,7 +149,7 @@ def check(index, ctx):
             raises = [e for e in res.events if e["kind"] == "raise" and e.get("exc") == "ValueError" and e.get("loops")]
             for e in raises:
                 last = e["function"].split(".")[-1]
-                if last == "_check_expects_grad" or ("_transform" in e["function"] and last not in ("ordered_set", "__init__")):
+                if last == "_check_expects_grad" or ("_transform" in e["function"] and last not in ("ordered_set", "__init__")) or any(("." + m_ + ".") in e["function"] for m_ in _pipe.INTERNAL_CHECK_MODULES):
                     continue  # the re-check next to the write is covered by the up-front validation (R3); internal consistency checks are not argument rejections
                 before = [w for w in gw if (set(w["loops"]) & set(e["loops"])) or w["seq"] <= e.get("after_seq", 0)]
                 k_ = f"{run.entry}: rejection raised at {e['loc'].split('/')[-1]} inside a loop"
